@@ -4,7 +4,12 @@
 //! as separate OS processes with identical / different seeds and progress-bar settings and TLC
 //! compares the outputs (SimEq.tla).
 //!
-//! usage: sim_run --configs FILE --out FILE --progress true|false [--seed-shift K]
+//! usage: sim_run --configs FILE --out FILE --progress true|false [--seed-shift K] [--order reverse-twice]
+//!
+//! `--order reverse-twice`: the configurations are run in reverse order and each one twice in a row inside this process; the
+//! output of the SECOND run of each is written, in the original order of the configurations.  A simulation that depends on
+//! anything the process carries over from earlier simulations (statics, thread-locals, allocator state) then differs from
+//! process A, which ran every configuration once, first to last.
 use bourse_de::agents::{Agent, AgentSet, MarketAgent, MarketAgentSet, MomentumAgent, MomentumMarketAgent, MomentumParams, NoiseAgent,
     NoiseAgentParams, NoiseMarketAgent, RandomAgents, RandomMarketAgents};
 use bourse_de::{market_sim_runner, sim_runner, Env, MarketEnv};
@@ -49,6 +54,7 @@ fn dump_book(f: &mut impl Write, tag: &str, asset: usize, orders: Vec<Value>, tr
 fn main() {
     let args: Vec<String> = std::env::args().collect();
     let (mut cfgs, mut out, mut progress, mut shift) = (String::new(), String::new(), false, 0u64);
+    let mut reverse_twice = false;
     let mut i = 1;
     while i < args.len() {
         match args[i].as_str() {
@@ -56,13 +62,29 @@ fn main() {
             "--out" => { out = args[i + 1].clone(); i += 1 }
             "--progress" => { progress = args[i + 1] == "true"; i += 1 }
             "--seed-shift" => { shift = args[i + 1].parse().unwrap(); i += 1 }
+            "--order" => { reverse_twice = args[i + 1] == "reverse-twice"; i += 1 }
             a => { eprintln!("unknown argument {}", a); std::process::exit(2) }
         }
         i += 1;
     }
     let configs: Vec<Value> = serde_json::from_str(&std::fs::read_to_string(&cfgs).expect("configs")).expect("configs json");
-    let mut f = std::io::BufWriter::new(std::fs::File::create(&out).expect("create out"));
-    for (ci, c) in configs.iter().enumerate() {
+    let mut file = std::io::BufWriter::new(std::fs::File::create(&out).expect("create out"));
+    let mut outputs: Vec<Vec<u8>> = vec![Vec::new(); configs.len()];
+    let order: Vec<usize> = if reverse_twice { (0..configs.len()).rev().flat_map(|i| [i, i]).collect() } else { (0..configs.len()).collect() };
+    for ci in order {
+        let c = &configs[ci];
+        let mut buf: Vec<u8> = Vec::new();
+        run_one(&mut buf, ci, c, shift, progress);
+        outputs[ci] = buf;
+    }
+    for o in outputs {
+        file.write_all(&o).unwrap();
+    }
+    file.flush().unwrap();
+}
+
+fn run_one(f: &mut Vec<u8>, ci: usize, c: &Value, shift: u64, progress: bool) {
+    {
         let tag = format!("c{}", ci);
         let seed = c["seed"].as_u64().unwrap().wrapping_add(shift);
         let steps = c["steps"].as_u64().unwrap();
@@ -85,7 +107,7 @@ fn main() {
                 }
             }
             for a in 0..2 {
-                dump_book(&mut f, &tag, a, env.get_orders(a).iter().map(|o| order_tuple(o)).collect(), env.get_trades(a).iter().map(trade_tuple).collect());
+                dump_book(f, &tag, a, env.get_orders(a).iter().map(|o| order_tuple(o)).collect(), env.get_trades(a).iter().map(trade_tuple).collect());
                 let (p, v) = (env.get_prices(a), env.get_volumes(a));
                 let h = env.get_level_2_data_history(a);
                 for k in 0..p.0.len() {
@@ -116,7 +138,7 @@ fn main() {
                     sim_runner(&mut env, &mut a, seed, steps, progress);
                 }
             }
-            dump_book(&mut f, &tag, 0, env.get_orders().iter().map(|o| order_tuple(o)).collect(), env.get_trades().iter().map(trade_tuple).collect());
+            dump_book(f, &tag, 0, env.get_orders().iter().map(|o| order_tuple(o)).collect(), env.get_trades().iter().map(trade_tuple).collect());
             let (p, v) = (env.get_prices(), env.get_volumes());
             let h = env.get_level_2_data_history();
             for k in 0..p.0.len() {
@@ -127,5 +149,4 @@ fn main() {
             }
         }
     }
-    f.flush().unwrap();
 }
